@@ -121,7 +121,7 @@ structure CallEnv where
 /-- the state `prepare_call` builds once every check has passed -/
 def buildCallee (vm : VM) (to asset : Bytes) (ca cb : Nat) (coins fwd : Nat) (regsCharged : Regs)
     (codePadded : Nat) (mem' : Mem) : VM :=
-  let oldSp := vm.regs regSp
+  let oldSp := vm.regs callFrameBaseReg                                       -- `let old_sp = *…system_registers.<reg>` (Gen)
   let newSp := oldSp + (frameSize + codePadded)
   let saved := setReg regsCharged regCgas (regsCharged regCgas - fwd)       -- cgas -= forward_gas_amount
   let frame : Frame := ⟨to, asset, saved, codePadded, ca, cb⟩               -- copy_registers() + context/global gas
@@ -183,7 +183,7 @@ def prepareCall (a b c d : Nat) (env : CallEnv) (vm : VM) : Except Err VM := do
   let r2 ← (if created then gasCharge r1 env.charge2 else pure r1)
   let fwd := min (r2 regCgas) d
   check (decide (fwd ≤ r2 regCgas)) .BugContextGasUnderflow                  -- checked_sub
-  let oldSp := vm.regs regSp
+  let oldSp := vm.regs callFrameBaseReg                                       -- `let old_sp = *…system_registers.<reg>` (Gen)
   let newSp := min (oldSp + (frameSize + codePadded)) (2 ^ 64 - 1)           -- saturating_add
   let m1 ← m0.growStack newSp
   m1.verify oldSp (frameSize + codePadded)                                    -- write_noownerchecks(fp, total_size_in_stack)
